@@ -160,7 +160,9 @@ def finish(prop, tier, seed, obs, meta, t0):
     for o in (proved[:3] + bounded[:2] + refuted[:2]):
         samples.append({k: o[k] for k in ('id', 'function', 'clause', 'route', 'backend', 'status', 'wall_s', 'bound') if o.get(k) is not None})
     cov = {
-        'obligations': cnt(proved) + len(kf) + len(viol) + len(undec),
+        # obligations that must hold on this tree; obligations failing exactly as listed in known_findings.json are counted separately below
+        'obligations': cnt(proved) + len(viol) + len(undec),
+        'known_finding_obligations': [o['id'] for o, _ in kf],
         'discharged': nded,
         'checker_cmd': meta.get('checker_cmd', './check %s --tier %s' % (prop, tier)),
         'trusted_base': meta.get('trusted_base', []),
